@@ -527,6 +527,9 @@ def build_item(repo, item, log):
         ce = toks[lex.match_close(src, toks, ti)][2]
         text = src[m.start(1):ce]
         text = re.sub(r"pub\((crate|super)\)", "pub", text)
+        # field visibility is irrelevant inside the single-file unit: make every named field `pub`
+        if m.group(1) == "struct":
+            text = re.sub(r"(?m)^(\s+)(?!pub\b)(\w+)\s*:", r"\1pub \2:", text)
         text = apply_rules(text, item.get("rules", []), log)
         where = "%s:%d" % (item["file"], lex.line_of(src, m.start(1)))
         attrs = "".join("%s\n" % a for a in item.get("attrs", []))
